@@ -93,4 +93,16 @@ TEXT = {
         "level_note": TRUST,
         "technique": "model-based property-based testing (rapid)",
     },
+    "C16": {
+        "level_text": "Differential property-based testing between two real applications built from the same generated declarations (Spec empty versus the explicit spec assembled from the statement): acceptance, bound values and the usage line must coincide for every generated argv, and the explicit variant is additionally compared with the reference semantics.",
+        "design_ref": "DESIGN.md section 5 (C16)",
+        "level_note": TRUST,
+        "technique": "differential property-based testing, implicit versus explicit spec (rapid)",
+    },
+    "C17": {
+        "level_text": "Property-based testing of the help text's information content: generated declaration sets over a distinctive vocabulary; the oracle checks the usage line, the description, ordered anchors with per-row content (description, $ENV names, default unless hidden/empty) and accounts for every vocabulary-shaped word of the output, for long and short help at depth 0-2.",
+        "design_ref": "DESIGN.md section 5 (C17)",
+        "level_note": TRUST + " Layout and boilerplate are not compared; whether a numeric zero default is displayed is left unasserted.",
+        "technique": "property-based testing with a content oracle over generated declarations (rapid)",
+    },
 }
